@@ -129,7 +129,7 @@ check('C09', 'proof',
       '(battle_controller.py handlers, players_info.py, constants.py) into a small handler language whose interpreter is Gallina (Summary.v); Coq theorems '
       'about the interpreter, for ANY history strict play accepts and any interleaving with other calls: the damage field is the count over exactly the '
       '(victim, attacker, amount) entries of the damage calls - each entry counted each time it occurs, under its own path and no other, totals are the '
-      'stream-order sums (integers: the arithmetic sum); the death list is the list of death calls, once each, in order; the roster is the key-mapped, '
+      'stream-order sums (integers: the arithmetic sum); the death list is the list of death calls, once each, in order; planes / achievements / old-style ribbons are counted by the same idiom (entry evaluated in the state the call finds); the roster is the key-mapped, '
       'id-keyed merge in which the last record that names a player and carries a field wins; a call changes only the fields its handler writes and the '
       'roster only if it is a roster call, an unhandled call changes nothing; the map setter strips a character SET, not the prefix (refuted + the exact '
       'condition under which they agree; finding C09-a). Generated instance theorems discharge the section hypotheses (handler shape, no other writer of '
@@ -140,7 +140,7 @@ check('C09', 'proof',
       'Trusted: Coq kernel, extraction + driver, tools/gen_controllers.py (translator) and summarycheck.py; CPython pickle as an oracle (roster blobs are unpickled by the harness '
       'with the encoding the handler names); exact dyadic float addition in the model (histories where CPython rounds are excluded and counted). Modelled, not proved: fields '
       'get_info() derives from the final world (ribbons of newer versions, crew, tasks, control points, new-style battle result inputs: covered by the C05/C06 theorems on that '
-      'state), receiveDamageStat (_damage_map; pinned by source hash), achievements/planes/ribbon counting handlers (translated and run, no section theorem instantiated), '
+      'state), receiveDamageStat (_damage_map; pinned by source hash), '
       'the wot/wowp controllers (player id, map, tracer count compared by run only).',
       'Coq proof over an interpreter of controller programs regenerated from the source on every run (translator) + instance theorems + differential run on all bundled versions', 'DESIGN.md §10.7')
 
